@@ -52,9 +52,18 @@ def build(case):
     for spec, t in zip(case['tasks'], by_ix):
         if spec['preds']:
             t.predecessors = [by_ix[i] for i in spec['preds']]
+    # The renderer objects are created while the WBS is still incomplete (every second root missing, a task that will
+    # be dropped present) and asked for their output after it was completed: a renderer shows the WBS as it is when it
+    # is asked, not as it was when the object was made.
     w = WBS()
+    tmp = Task(-424242, 'dropped before rendering')
+    w.roots = [r for i, r in enumerate(roots) if i % 2 == 0] + [tmp]
+    cfg = case['cfg']
+    rend = (mgantt_mod.MermaidGantt(w, height=cfg['height'], weekends=cfg['weekends'], tick_interval=cfg['tick'], title=cfg['title']),
+            mnet_mod.MermaidNetwork(w, height=cfg['height']),
+            dhtmlx_mod.DhtmlxGantt(w, height=cfg['height'], scale=cfg['scale'], today_marker=cfg['today_marker']))
     w.roots = roots
-    return w
+    return w, rend
 
 
 def observe(fn):
@@ -67,15 +76,12 @@ def observe(fn):
 def run_case(case):
     out = {}
     try:
-        w = build(case)
+        w, (g, n, d) = build(case)
     except BaseException as ex:  # noqa
         return {'build': [exc_code(ex), type(ex).__name__ + ': ' + str(ex)[:200]]}
     _CLOCK[0] = from_us(case['clock'])
     cfg = case['cfg']
     out['order'] = [t.id for t in w.tasks]
-    g = mgantt_mod.MermaidGantt(w, height=cfg['height'], weekends=cfg['weekends'], tick_interval=cfg['tick'], title=cfg['title'])
-    n = mnet_mod.MermaidNetwork(w, height=cfg['height'])
-    d = dhtmlx_mod.DhtmlxGantt(w, height=cfg['height'], scale=cfg['scale'], today_marker=cfg['today_marker'])
     out['gantt_src'] = observe(lambda: g._MermaidGantt__src())
     out['gantt_styles'] = observe(lambda: g._MermaidGantt__styles())
     out['gantt_doc'] = observe(g.to_html)
